@@ -143,7 +143,21 @@ impl<M: SpaceModel> Sweep for SpaceSweep<M> {
                 }
             });
             let mut res = results.into_inner().unwrap();
-            res.sort_by(|a, b| a.0.cmp(&b.0));
+            // sorting tens of millions of histories runs no implementation code but takes a while:
+            // keep the watchdog's heartbeat going from a ticker thread meanwhile
+            let sorting = std::sync::atomic::AtomicBool::new(true);
+            std::thread::scope(|sc| {
+                sc.spawn(|| {
+                    while sorting.load(Ordering::Relaxed) {
+                        if let Some(s) = hb {
+                            s.seq.fetch_add(1, Ordering::Relaxed);
+                        }
+                        std::thread::sleep(std::time::Duration::from_millis(200));
+                    }
+                });
+                res.sort_by(|a, b| a.0.cmp(&b.0));
+                sorting.store(false, Ordering::Relaxed);
+            });
             let mut next = vec![];
             for (h, step) in res {
                 transitions += 1;
